@@ -3,7 +3,8 @@ import json, os, random, re, subprocess, time
 from .. import common, attr
 
 TOKEN = re.compile(r'"(?:[^"\\]|\\.)*"|b\'[^\']*\'|\'[^\']\'|[A-Za-z_][A-Za-z0-9_]*|[0-9][0-9A-Za-z_.]*|::|->|=>|[^\sA-Za-z0-9_]')
-REPLACEMENTS = ["unsafe", "*", "-1", "99999999999999999999", '"é"', "a::b", "()", "true", "false", '""', "1.5", "'c'", "b\"x\"",
+REPLACEMENTS = ['"rang_très_élevé"', '"aéééééééééééééééé"', '"aaéééééééééééééééé"', "&(u8)", "(u8)", "&'static (dyn Fn(u32) -> u32 + Sync)",
+                "&&(u8)", "fn(u8) -> u8", "[(u8); 2]", "unsafe", "*", "-1", "99999999999999999999", '"é"', "a::b", "()", "true", "false", '""', "1.5", "'c'", "b\"x\"",
                 "r#type", "Self", "self", "_", "name", "ignore", "method", "bound", "rank", "expression", "new", "named_field",
                 "Debug", "Into", "u8", "&'static str", ",", "=", "(", ")", "[", "]", "{", "}", "#", "!", "?", "'a", "12_u8", "0x10"]
 
@@ -21,8 +22,12 @@ ADVERSARIAL_ATTRS = [
     "#[educe(Clone(bound(T: Clone,)))]", "#[educe(Deref())]", "#[educe(Deref = true)]", "#[educe(DerefMut(x))]", "#[educe(Copy(x))]",
     "#[educe(Eq = 1)]", "#[educe(Debug, Debug)]", "#[educe(Debug)] #[educe(Debug)]", "#[educe(Nope)]", "#[educe(debug)]",
     "#[educe(Debug(named_field))]", "#[educe(Debug(named_field = 1))]", "#[educe(Debug = false)]", '#[educe(Debug = "")]',
-    "#[educe(Debug(name(1 foo)))]", "#[educe(Debug(name(true false)))]", "#[educe(Default(expr(1, 2)))]", "#[educe(Hash(method(1)))]",
+    '#[educe(Ord(rank = "rang_très_élevé"))]', '#[educe(Ord(rank("ééééééééééééééééé")))]', '#[educe(Debug(name = "ééééééééééééééééé"))]',
+    '#[educe(Debug(name("aéééééééééééééééé")))]', '#[educe(Hash(method = "ééé::ééééééééééé::é"))]', '#[educe(Default(expression = "ééééééééééééééééé"))]',
+    '#[educe(Clone(bound = "ééééééééé: éééééééééé"))]', "#[educe(Debug(name(1 foo)))]", "#[educe(Debug(name(true false)))]", "#[educe(Default(expr(1, 2)))]", "#[educe(Hash(method(1)))]",
 ]
+ODD_TYPES = ["(u8)", "&'static (u8)", "&'static &'static (u8)", "&'static (dyn Fn(u32) -> u32 + Sync)", "fn(u8) -> u8", "[(u8); 2]",
+             "((u8),)", "*const (u8)", "&'static [(u8)]", "Option<&'static (u8)>"]
 ITEMS = [
     "struct S;", "struct S();", "struct S {}", "struct S(u8);", "struct S { a: u8, b: &'static &'static &'static u8 }",
     "enum E {}", "enum E { A }", "enum E { A, B(u8), C { x: u8 } }", "enum E { A = 1 + 1, B }", "#[repr()] enum E { A }",
@@ -101,6 +106,14 @@ def main(tier):
             tr = re.findall(r"educe\(\s*(?:::)?(\w+)", a)
             top = "#[educe(%s)]" % (tr[0] if tr and tr[0][0].isupper() and tr[0] in attr.ALL_TRAITS else "Debug")
             cases.append("#[derive(Educe)]\n%s\n%s" % (top, it % a))
+    # (1b) unusual field / target types under the traits that inspect types
+    for ty in ODD_TYPES:
+        for t in ["Deref", "Into(%s)" % ty, "Into(u8)", "Default", "Debug", "Clone", "PartialEq", "Hash"]:
+            if t == "Default" and ("dyn" in ty or "*const" in ty or "fn(" in ty):
+                continue
+            cases.append("#[derive(Educe)]\n#[educe(%s)]\nstruct S(%s);" % (t, ty))
+            cases.append("#[derive(Educe)]\n#[educe(%s)]\nenum E { A(%s), B { x: %s } }" % (t, ty, ty))
+            cases.append("#[derive(Educe)]\n#[educe(%s)]\nstruct S { #[educe(%s)] a: %s, b: u8 }" % (t, t.split("(")[0] if t.startswith(("Deref", "Default")) else t, ty))
     # (2) token-level mutations of valid definitions
     pool = [s for _, s, _ in attr.valid_pool(rng, n_valid)]
     tries = 0
@@ -129,6 +142,10 @@ def main(tier):
         tie["evaluations"] += 1
         if r["outcome"] == "err":
             classes.add(attr.classify(r["message"]))
+        if r["outcome"] == "abort":
+            tie["failing"].append({"what": "the macro aborted the process or did not terminate (stack overflow / endless loop)", "rust_source": s,
+                                   "observed": r.get("message"), "expected_spec": "a diagnostic or generated items"})
+            continue
         if r["outcome"] == "panic":
             # believed only after the real proc-macro panics under rustc as well
             if attr.confirm_panic_with_rustc(s):
